@@ -85,7 +85,167 @@ func genParams(rt *rapid.T, seedTag string) (sim.Params, string, []string) {
 		p.Witnesses = []int{0}
 		p.TopCount = 8
 	}
+	// about one genesis in four carries proposals of the chain it was dumped from (the flavour stays what it is:
+	// the classes "genesis-carries-proposals" / "genesis-proposal:<stage>:<path>" show them)
+	if u.N(4, "c14-pre") == 0 {
+		p.PreProposals = genPreProposals(u, p, pool)
+	}
 	return p, flavour, pool
+}
+
+// preTally judges a drawn opinion vector against the genesis powers (documented rule, see tally).
+func preTally(votes []string, power []int64) tally {
+	var t tally
+	for i, pw := range power {
+		o := "unknown"
+		if i < len(votes) {
+			o = votes[i]
+		}
+		if o == "absent" {
+			continue
+		}
+		t.all += pw
+		switch o {
+		case "yes":
+			t.yes += pw
+		case "no":
+			t.no += pw
+		case "giveup":
+			t.giveup += pw
+		}
+	}
+	return t
+}
+
+// genPreProposals draws 1-3 proposals a state dump could hold: funding (contributions below the goal), voting
+// (goal met, snapshot of the genesis validators, an undecided tally), passed / failed (a tally that recounts to
+// the outcome and that the last vote decided: taking one deciding vote back leaves it undecided, so tallies sit
+// on and next to the pass percentage), cancelled (funders may withdraw). Deadlines are heights of the new chain.
+func genPreProposals(u *hist.U, p sim.Params, pool []string) []sim.PreProposal {
+	n := 1 + u.N(3, "pre-n")
+	goal, initial := bigS(p.PropFundingGoal), bigS(p.PropInitialFunding)
+	nv := len(p.ValPower)
+	var out []sim.PreProposal
+	for k := 0; k < n; k++ {
+		pp := sim.PreProposal{IDSeed: fmt.Sprintf("c14-pre-%d-%s", k, p.Seed)}
+		pp.Stage = []string{"funding", "voting", "voting", "passed", "passed", "failed", "cancelled"}[u.N(7, "pre-stage")]
+		pp.Type = []string{"general", "general", "config", "config", "code"}[u.N(5, "pre-type")]
+		if pp.Type == "config" {
+			pp.Config = pool[u.N(6, "pre-cfg")] // the first six validate in every flavour
+		}
+		pp.Proposer = u.N(5, "pre-proposer")
+		if u.N(4, "pre-pct") == 0 {
+			pp.PassPct = []int{51, 67, 80, 100}[u.N(4, "pre-pct-v")] // the proposal's own percentage, not the options'
+		}
+		pct := p.PropPassPct
+		if pp.PassPct != 0 {
+			pct = pp.PassPct
+		}
+		other := (pp.Proposer + 1 + u.N(4, "pre-funder")) % 5
+		fund := func(user int, amt *big.Int) {
+			if amt.Sign() > 0 {
+				pp.Funds = append(pp.Funds, sim.PreFund{User: user, Amount: amt.String()})
+			}
+		}
+		switch pp.Stage {
+		case "funding", "cancelled":
+			fund(pp.Proposer, initial)
+			rest := new(big.Int).Sub(goal, initial)
+			switch u.N(4, "pre-partial") {
+			case 0:
+				fund(other, new(big.Int).Sub(rest, big.NewInt(1))) // one unit short of the goal
+			case 1:
+				fund(other, new(big.Int).Div(rest, big.NewInt(2)))
+			case 2:
+				fund(pp.Proposer, big.NewInt(1)) // a second record of the same funder: the import adds them up
+			}
+			pp.FundingDL = int64(u.N(4, "pre-fdl")) // 0: the funding period ended with the old chain
+			pp.VotingDL = pp.FundingDL + p.PropVotingDL
+		default:
+			fund(pp.Proposer, initial)
+			rest := new(big.Int).Sub(goal, initial)
+			if u.N(3, "pre-over") == 0 {
+				rest.Add(rest, big.NewInt(int64(1+u.N(1000, "pre-over-v"))))
+			}
+			if u.N(3, "pre-split") == 0 {
+				half := new(big.Int).Div(rest, big.NewInt(2))
+				fund(other, half)
+				fund((other+1)%5, new(big.Int).Sub(rest, half))
+			} else {
+				fund(other, rest)
+			}
+			pp.FundingDL = 0
+			pp.VotingDL = int64(u.N(5, "pre-vdl")) // 0: the voting period ended with the old chain (expires in block 1)
+			if pp.Stage == "voting" && p.PropVotingDL > 1000 {
+				pp.VotingDL = p.PropVotingDL // the flavour without deadline endings
+			}
+			votes := make([]string, nv)
+			for i := range votes {
+				votes[i] = []string{"yes", "yes", "no", "unknown", "unknown", "giveup", "absent"}[u.N(7, "pre-op")]
+			}
+			idx := func(label string, ops ...string) int { // a drawn validator holding one of the opinions, -1 if none
+				var c []int
+				for i, o := range votes {
+					for _, w := range ops {
+						if o == w {
+							c = append(c, i)
+						}
+					}
+				}
+				if len(c) == 0 {
+					return -1
+				}
+				return c[u.N(len(c), label)]
+			}
+			switch pp.Stage {
+			case "voting":
+				for preTally(votes, p.ValPower).passes(pct) {
+					votes[idx("pre-fix-v", "yes")] = "unknown"
+				}
+				for preTally(votes, p.ValPower).cannotPass(pct) {
+					votes[idx("pre-fix-v", "no")] = "unknown"
+				}
+			case "passed":
+				for !preTally(votes, p.ValPower).passes(pct) {
+					votes[idx("pre-fix-p", "unknown", "no", "giveup", "absent")] = "yes"
+				}
+				// the vote that decided was the last one: no yes beyond the deciding ones
+				for again := true; again; {
+					again = false
+					for i := range votes {
+						if votes[i] == "yes" {
+							votes[i] = "unknown"
+							if preTally(votes, p.ValPower).passes(pct) {
+								again = true
+								break
+							}
+							votes[i] = "yes"
+						}
+					}
+				}
+			case "failed":
+				for !preTally(votes, p.ValPower).cannotPass(pct) {
+					votes[idx("pre-fix-n", "unknown", "yes", "giveup", "absent")] = "no"
+				}
+				for again := true; again; {
+					again = false
+					for i := range votes {
+						if votes[i] == "no" {
+							votes[i] = "unknown"
+							if preTally(votes, p.ValPower).cannotPass(pct) {
+								again = true
+								break
+							}
+							votes[i] = "no"
+						}
+					}
+				}
+			}
+			pp.Votes = votes
+		}
+		out = append(out, pp)
+	}
+	return out
 }
 
 // fgen is the focused generator: it reads the reference model (which proposals are in which stage,
@@ -555,8 +715,11 @@ func (f *fgen) push() ([]txgen.Tx, bool) {
 func (f *fgen) drawBlock() ([]txgen.Tx, string) {
 	// deep-state drivers first: they apply only in particular model states
 	r := f.u.N(100, "blk")
-	if f.next() <= 2 && f.u.N(5, "warmup") != 0 {
+	if f.next() <= 2 && len(f.m.Order) == 0 && f.u.N(5, "warmup") != 0 {
 		return nil, "idle" // validators are marked active at the end of block 2: earlier snapshots are empty
+	}
+	if f.next() <= 2 && len(f.m.Order) > 0 && f.u.N(3, "warmup-pre") == 0 {
+		return nil, "idle" // (a genesis that carries proposals has work for the first blocks: vote, fund, withdraw, finalise)
 	}
 	if len(f.priority) > 0 && f.u.N(100, "push") < 60 {
 		if txs, ok := f.push(); ok {
